@@ -29,7 +29,7 @@ for area, (files, pids) in AREAS.items():
         continue
     json.dump([{k: props[p][k] for k in ("id", "title", "statement")} for p in pids], open("%s/props_%s.json" % (OUT, area), "w"), indent=1)
     txt = tmpl.replace("/tmp/wtb/", WT + "/").replace("/tmp/mutb/", OUT + "/").replace("{AREA}", area).replace("{FILES}", ", ".join(files))
-    done = [v for k, v in sorted(prev_meta.items()) if k.startswith("sa-%s-" % area) or k.startswith("sb-%s-" % area)]
+    done = [v for k, v in sorted(prev_meta.items()) if k.startswith("sa-%s-" % area) or k.startswith("sb-%s-" % area) or k.startswith("sc-%s-" % area)]
     if done:
         txt += "\nThe following refactors were already made in this area by other people: do NOT repeat them (nor the same idea on the same function); choose other functions and other kinds of transformation:\n" + "\n".join("  - [%s] %s" % (d.get("kind"), (d.get("summary") or "")[:260].replace("\n", " ")) for d in done) + "\n"
     open("%s/PROMPT_%s.md" % (OUT, area), "w").write(txt)
